@@ -409,6 +409,27 @@ def run(ctx):
         if k % 3 == 0:
             for cut in sorted(set(rng.randint(1, len(text)) for _ in range(8))): add('deprecated-union-truncation', root_, rng.choice([0, 1]), text[:cut])
             for _ in range(4): add('deprecated-union-mutation', root_, rng.choice(allflags), U.mutate(rng, text))
+    # sibling nested buffers at the same depth, given as JSON objects with IDENTICAL table layout (two nested_flatbuffer fields of the same
+    # table type, a vector of items each holding one): vtables must not be shared across the sibling buffers
+    subs = [b'{"id":1,"tag":"t"}', b'{"tag":"x"}', b'{"id":7,"tag":"same","pt":{"x":1,"y":2}}', b'{"tag":""}']
+    for sb in subs:
+        for other in (sb, subs[0]):
+            items = b','.join(b'{"payload":' + x + b',"id":%d}' % i for i, x in enumerate([sb, other, sb]))
+            for body in (b'{"a":' + sb + b',"b":' + other + b'}', b'{"b":' + sb + b',"a":' + other + b',"n":3}', b'{"items":[' + items + b']}',
+                         b'{"a":' + sb + b',"items":[' + items + b'],"b":' + other + b',"n":1}'):
+                for fl in (0, 2, 4):
+                    add('sibling-nested', 'Twin', fl, body, 1)
+    for k in range(40 if T else 12):
+        gg = U.Gen(rng, max_depth=3)
+        v = gg.table('Twin', 0, p_present=1.0)
+        add('sibling-nested', 'Twin', rng.choice([0, 1, 2, 4]), U.render_root('Twin', v, U.Style(rng, strict=(k % 2 == 0))))
+    # a table type with several unions occurring repeatedly in one buffer, the non-first unions present in every instance
+    for k in range(30 if T else 9):
+        gg = U.Gen(rng, max_depth=3)
+        mk = lambda t: gg.table(t, 1, p_present=1.0)
+        v = {'xs': [mk('DepMid') for _ in range(rng.choice([2, 3]))], 'a': mk('DepMid'), 'b': mk('DepMid'), 'ys': [mk('DepLast') for _ in range(2)]}
+        st = U.Style(rng, strict=(k % 2 == 0)); st.union_order = ['type_first', 'value_first', 'split'][k % 3]
+        add('repeated-multi-union', 'Multi', rng.choice([0, 1, 2, 4]), U.render_root('Multi', v, st))
     # EVERY generated entry point: <T>_parse_json_as_root (above) and the schema-level <basename>_parse_json (root name `Root@schema`; for the
     # struct-root schema `SPt` / `SPt@schema` in the second executable).  Nesting of known fields through each of them.
     for d in (1, 50, 99, 100, 101, 127, 128, 1000, 20000):
@@ -492,7 +513,7 @@ def run(ctx):
     # the same parses on a fresh builder whose allocator moves every block it grows (flatcc_builder_custom_init): a pointer into a
     # builder stack kept across a growing operation is then a heap-use-after-free for ASan, and the result must not depend on the allocator
     moving = [i for i, c in enumerate(cases) if c[0] in ('valid', 'unknown-fields', 'hand', 'nested-struct-object', 'union-tree', 'required-subsets', 'union-tree-truncation',
-                                                           'union-tree-mutation', 'all-flags', 'int-limits-in', 'int-limits-out', 'array-overflow', 'float-terminated', 'array-underfill', 'deprecated-union', 'deprecated-union-truncation', 'deprecated-union-mutation')]
+                                                           'union-tree-mutation', 'all-flags', 'int-limits-in', 'int-limits-out', 'array-overflow', 'float-terminated', 'array-underfill', 'sibling-nested', 'repeated-multi-union', 'deprecated-union', 'deprecated-union-truncation', 'deprecated-union-mutation')]
     rest = [i for i, c in enumerate(cases) if c[0] in ('truncation', 'mutation', 'ends-at-end', 'random')]
     moving += rng.sample(rest, min(len(rest), 6000 if T else 1500))
     moving.sort()
@@ -565,7 +586,8 @@ def run(ctx):
     ub_seen = {}
     beyond = {}
     # replies of <Root>_parse_json_as_root by (text, flags): what is specific to the schema-level entry point is what differs from them
-    twin = {(c[4], c[2]): r_ for c, r_ in zip(cases, rep) if c[1] == 'Root'}
+    # (only twins built with the file identifier, as the schema-level entry always writes it: the identifier changes the layout)
+    twin = {(c[4], c[2]): r_ for c, r_ in zip(cases, rep) if c[1] == 'Root' and c[3] == 1}
     for ci, ((klass, root, fl, fid, text), line, r) in enumerate(zip(cases, lines, rep)):
         ctx.count(line, klass='parse:' + klass)
         n = len(text)
@@ -646,7 +668,8 @@ def run(ctx):
             elif vrc != 0:
                 ws = bool(fl & 4)
                 tw = twin.get((text, fl), '').split()
-                if root.endswith('@schema') and ws and tw[:1] == ['OK'] and len(tw) > 3 and tw[3] == '0':
+                nested_bytes = re.search(rb'nest(_s|64)?"?\s*:\s*[\["]', text) is not None       # known findings nested-bytes-*: layout dependent, classified below
+                if root.endswith('@schema') and ws and not nested_bytes and tw[:1] == ['OK'] and len(tw) > 3 and tw[3] == '0':
                     ctx.violation('root-parse-json-ignores-with-size', 'schema-level entry point <basename>_parse_json (%s) called with flatcc_json_parser_f_with_size succeeds, but the buffer has no size prefix '
                                   '(start_buffer is called with flags 0): *_verify_as_root_with_size rejects it with %d, while the buffer of <Root>_parse_json_as_root for the same text and flags verifies' % (root, vrc), replay)
                 elif root in ('Pt', 'Fix') and ws:
